@@ -299,6 +299,21 @@ func (p *ProdGen) FailingProducer(kind string) []sdk.Msg {
 		zeroHead := append(make([]byte, 32), 0xde, 0xad, 0xbe, 0xef)
 		d.DestinationCaller = [][]byte{{7}, Structured32(3)[:20], Structured32(3)[:31], append(Structured32(3), 9), zeroHead, append(Structured32(3), Structured32(4)...), make([]byte, 20), make([]byte, 33)}[r.Intn(8)]
 		return msgs1(d)
+	case "deposit-lookalike-denom":
+		// the burn token is spelled in another letter case and the depositor really holds coins of that spelling
+		look := LookalikeFunding()
+		dens := []string{"UUSDC", "uUsdc", "Uusdc"}
+		dn := dens[r.Intn(len(dens))]
+		var holders []string
+		for a := range look[dn] {
+			holders = append(holders, a)
+		}
+		sort.Strings(holders)
+		d := p.ValidDeposit(false, 0).(*ct.MsgDepositForBurn)
+		d.From = holders[r.Intn(len(holders))]
+		d.BurnToken = dn
+		d.Amount = mkInt(big.NewInt(int64(1 + r.Intn(600))))
+		return msgs1(d)
 	case "deposit-zero-amount":
 		d := p.ValidDeposit(false, 0).(*ct.MsgDepositForBurn)
 		d.Amount = mkInt(big.NewInt(0))
@@ -328,7 +343,7 @@ func (p *ProdGen) FailingProducer(kind string) []sdk.Msg {
 	return nil
 }
 
-var FailingProducerKinds = []string{"zero-recipient", "oversize-body", "bad-caller-length", "deposit-bad-caller-length", "deposit-zero-amount", "deposit-over-balance", "deposit-no-messenger", "later-message-fails", "deposit-then-failing-message"}
+var FailingProducerKinds = []string{"zero-recipient", "oversize-body", "bad-caller-length", "deposit-bad-caller-length", "deposit-lookalike-denom", "deposit-zero-amount", "deposit-over-balance", "deposit-no-messenger", "later-message-fails", "deposit-then-failing-message"}
 
 // Run drives n steps.
 func (p *ProdGen) Run(n int, adminEvery int) {
